@@ -629,6 +629,13 @@ pub const _x: u8 = 0;
 pub const _self_x: u8 = 0;
 pub const _other_x: u8 = 0;
 pub const _this_x: u8 = 0;
+// ... and like the fields themselves
+#[allow(dead_code)]
+const x: u8 = 0;
+#[allow(dead_code)]
+const f: F = F(0);
+#[allow(dead_code)]
+const _f: F = F(0);
 #[derive_ex(Clone, PartialEq, Eq, PartialOrd, Ord, Hash)]
 pub enum B1 { A(u8), B { x: u8 }, C }
 #[derive_ex(Debug)]
